@@ -337,11 +337,11 @@ func (ka *eccKeyAgreementGM) generateServerKeyExchange(config *Config, signCert,
 }
 
 func (ka *eccKeyAgreementGM) processClientKeyExchange(config *Config, cert *Certificate, ckx *clientKeyExchangeMsg, version uint16) ([]byte, error) {
-	if len(ckx.ciphertext) == 0 {
+	if len(ckx.ciphertext) < 2 {
 		return nil, errClientKeyExchange
 	}
 
-	if int(ckx.ciphertext[0]<<8|ckx.ciphertext[1]) != len(ckx.ciphertext)-2 {
+	if int(ckx.ciphertext[0])<<8|int(ckx.ciphertext[1]) != len(ckx.ciphertext)-2 {
 		return nil, errClientKeyExchange
 	}
 
@@ -373,7 +373,7 @@ func (ka *eccKeyAgreementGM) processServerKeyExchange(config *Config, clientHell
 	if len(skx.key) <= 2 {
 		return errServerKeyExchange
 	}
-	sigLen := int(skx.key[0]<<8 | skx.key[1])
+	sigLen := int(skx.key[0])<<8 | int(skx.key[1])
 	if sigLen+2 != len(skx.key) {
 		return errServerKeyExchange
 	}
@@ -383,8 +383,8 @@ func (ka *eccKeyAgreementGM) processServerKeyExchange(config *Config, clientHell
 	digest := ka.hashForServerKeyExchange(clientHello.random, serverHello.random, ka.encipherCert.Raw)
 
 	//verify
-	pubKey, _ := cert.PublicKey.(*ecdsa.PublicKey)
-	if pubKey.Curve != sm2.P256Sm2() {
+	pubKey, ok := cert.PublicKey.(*ecdsa.PublicKey)
+	if !ok || pubKey.Curve != sm2.P256Sm2() {
 		return errors.New("tls: sm2 signing requires a sm2 public key")
 	}
 
